@@ -118,6 +118,26 @@ Inductive ctree :=
   | CYes | CNo                                            (* the two target blocks *)
   | CJ (c : cond) (a b : itree) (yes no : ctree).         (* a; b; CJump a c b yes no *)
 
+(* gen_bool_op: first_values = values[:-1], last_value = values[-1].  Every value but the last
+   gets a fresh block (all_true_block / all_false_block) that the NEXT value's code is emitted
+   into; the last value jumps to the original targets.  [f x yes no] = gen_cond(x, yes, no). *)
+Definition chain_lower (f : pcond -> ctree -> ctree -> option ctree) (isand : bool)
+           (yes no : ctree) : list pcond -> option ctree :=
+  fix go (l : list pcond) : option ctree :=
+  match l with
+  | [] => None                                   (* values[-1] of an empty list *)
+  | x :: r =>
+      match r with
+      | [] => f x yes no                         (* last_value *)
+      | _ :: _ =>
+          match go r with
+          | Some next => if isand then f x next no     (* gen_cond(value, all_true_block, no_block) *)
+                         else f x yes next             (* gen_cond(value, yes_block, all_false_block) *)
+          | None => None
+          end
+      end
+  end.
+
 Fixpoint lower_cond (k : lowcfg) (c : pcond) (yes no : ctree) : option ctree :=
   match c with
   | PCmp o a b =>
@@ -125,17 +145,7 @@ Fixpoint lower_cond (k : lowcfg) (c : pcond) (yes no : ctree) : option ctree :=
       | Some ta, Some tb, Some io => Some (CJ io ta tb yes no)
       | _, _, _ => None
       end
-  | PAnd a b =>
-      (* all_true_block = code of b with the same targets; a jumps there or to no_block *)
-      match lower_cond k b yes no with
-      | Some tb => lower_cond k a tb no
-      | None => None
-      end
-  | POr a b =>
-      match lower_cond k b yes no with
-      | Some tb => lower_cond k a yes tb
-      | None => None
-      end
+  | PBoolOp isand vs => chain_lower (lower_cond k) isand yes no vs
   | PNot _ => None
   end.
 
